@@ -2,7 +2,7 @@
    model (DistSolve.v, which builds on Krylov.v) to OCaml.  Directives: ExtractCommon.v. *)
 From Amgcl Require Import ExtractCommon.
 From Coq Require Import QArith Qcanon.
-From Amgcl Require Import Scalar QcInst Vec Crs Kernels MatOps Dist Krylov DistSolve PmisSpec.
+From Amgcl Require Import Scalar QcInst Vec Crs Kernels MatOps Dist Krylov DistSolve PmisSpec Pmis.
 Separate Extraction
   QcInst.QcS Scalar.is_zero Scalar.smax Scalar.smin
-  Vec Crs Kernels MatOps Dist DistSolve PmisSpec.
+  Vec Crs Kernels MatOps Dist DistSolve PmisSpec Pmis.
